@@ -645,16 +645,19 @@ def emit(rng, style, i):
 
 
 class E2E:
-    def __init__(self, ctx, rng, desc):
+    def __init__(self, ctx, rng, desc, sizes=None):
         from operon_ai.surveillance.immune_system import ImmuneSystem
         self.ctx = ctx
         self.rng = rng
         self.desc = desc
-        mo = rng.choice([1, 2, 3, 5, 10, 10, 20])
-        ws = rng.choice([mo, mo + 3, 2 * mo + 5, 50, 100])
-        if rng.random() < 0.02:
-            ws = max(1, mo - 1)
-        mts = rng.choice([1, 2, 3, 10, 10, 15])
+        if sizes is not None:
+            mo, ws, mts = sizes
+        else:
+            mo = rng.choice([1, 2, 3, 5, 10, 10, 20])
+            ws = rng.choice([mo, mo + 3, 2 * mo + 5, 50, 100])
+            if rng.random() < 0.02:
+                ws = max(1, mo - 1)
+            mts = rng.choice([1, 2, 3, 10, 10, 15])
         self.mo, self.ws = mo, ws
         self.thr_repeat = rng.choice([1, 2, 3, 3, 3, 5])
         self.thr_anergy = rng.choice([1, 2, 2, 3, 5])
@@ -928,18 +931,10 @@ CORNER_SWEEP = [(cfg, val, field, nobs)
 
 def case_corner(ctx, item):
     """tiny windows x extreme / non-finite observation values: whatever training accepts must inspect clean"""
-    from operon_ai.surveillance.immune_system import ImmuneSystem
-    from operon_ai.surveillance.thymus import SelectionResult
     (mo, ws, mts), val, field, nobs = item
     v = float(val)
-    desc = {"kind": "corner", "config": {"min_observations": mo, "window_size": ws, "min_training_samples": mts},
-            "value": val, "field": field, "ops": []}
-    h = E2E.__new__(E2E)
-    h.ctx, h.desc, h.rng = ctx, desc, ctx.rng("corner", val, field)
-    h.mo, h.ws, h.thr_repeat, h.thr_anergy = mo, ws, 3, 5
-    h.hits, h.model, h.remembered, h.raw, h.i, h.trained, h.reached, h.last_level, h.hidden_clean = [], None, set(), [], 0, False, set(), "none", False
-    h.sys = ImmuneSystem(min_training_samples=mts, min_observations=mo, window_size=ws)
-    h.sys.register_agent("agent")
+    desc = {"kind": "corner", "value": val, "field": field, "ops": []}
+    h = E2E(ctx, ctx.rng("corner", repr(item)), desc, sizes=(mo, ws, mts))
     n = mo if nobs == "min" else ws
     for i in range(n):
         h.sys.record_observation("agent", "status nominal", v if field == "rt" else 0.5, v if field == "conf" else 0.9)
